@@ -86,7 +86,8 @@ Step ==
                                            /\ term = (IF FirstFail = 0 THEN "C" ELSE "E")
           [] kind = "filter" -> outs = FilterOut(1) /\ term = "C"
           [] kind = "sort"   -> /\ IsPerm(outs, [j \in 1..Len(ins) |-> j]) /\ Sorted /\ (stable => Stable) /\ term = "C"
-          [] kind = "reader" -> clen = slen /\ (clen = 0 \/ chash = shash) /\ term = "C"
+          \* stable (hdr.b) here: the wrapped reader ends with an error of its own - every byte it handed out before (or together with) that error is delivered first
+          [] kind = "reader" -> clen = slen /\ (clen = 0 \/ chash = shash) /\ term = (IF stable THEN "E" ELSE "C")
           [] kind = "writer" -> /\ outs = <<Accepted>>
                                 /\ term = (IF FirstFail = 0 THEN "C" ELSE "E")
                                 \* write-through sinks (hdr.b): the writer saw exactly the items up to the refused one, nothing after it
